@@ -975,8 +975,8 @@ def run_case(case, forced=None):
         if case["scenario"]["cache"].get(n, "").startswith("warm"):
             res.stats["probes"]["fetch_failed_cache_warm"] = \
                 res.stats["probes"].get("fetch_failed_cache_warm", 0) + 1
-    if hist["loader_exceptions"]:
-        res.count("labels", "loader-died")
+    for exc_name in hist["loader_exceptions"]:
+        res.count("labels", "loader-died:" + exc_name)
     for call in hist["calls"]:
         res.count("ops", call["op"][0])
         if call["outcome"][0] == "exc":
